@@ -521,6 +521,7 @@ def units(tier):
             out.append(('strings', kpos, first))
     for i in range(len(class_families())):
         out.append(('fam', i))
+    out.append(('longkeys',))
     return out
 
 
@@ -561,6 +562,18 @@ def run_unit(unit, tier):
                 res.nontrivial += 1
                 if i % 997 == 0:
                     res.sample({'value': show(fresh(t)), 'json': dj(fresh(t), indent=2)}, 2)
+        return res
+    if unit[0] == 'longkeys':
+        # keys around PyYAML's limit of 1024 characters for an implicit ("simple") key, which the JSON text uses
+        for n in (1000, 1021, 1022, 1023, 1024, 1030, 2000):
+            for ch in ('k', '\u00e9'):
+                v = {ch * n: 1, 'z': [1]}
+                res.states += 1
+                for ind in (None, 2):
+                    for ea in (True, False):
+                        res.transitions += 1
+                        check_json(dj, v, ind, ea, res, 'long-key', {'longkey': [ch, n]}, anycase)
+                res.nontrivial += 1
         return res
     if unit[0] == 'strings':
         _, kpos, first = unit
@@ -638,7 +651,9 @@ def replay(payload):
     d = payload['value']
     dj = yatiml.dumps_json_function()
     anycase = loadcase.Case({'classes': [], 'root': 'any'})
-    if 'tree' in d:
+    if 'longkey' in d:
+        check_json(dj, {d['longkey'][0] * d['longkey'][1]: 1, 'z': [1]}, payload['indent'], payload['ensure_ascii'], res, payload['fam'], d, anycase)
+    elif 'tree' in d:
         v = fresh(eval(d['tree']))
         check_json(dj, v, payload['indent'], payload['ensure_ascii'], res, payload['fam'], d, anycase)
     elif 'string' in d:
